@@ -133,6 +133,15 @@ def tokEvents (chunks : List Bytes) : List Event :=
   | true, [] :: rest => evAfterBom T cfg rest     -- the first buffer is empty: no mark is looked for
   | _, _ => tokEventsIdeal T cfg chunks
 
+/-- the outcome of the same call (`Json.run`, with the same deviation) -/
+def tokRun (chunks : List Bytes) : Except Err (List JV) :=
+  match cfg.reader && emptyFirstReadNoBom, chunks with
+  | true, [] :: rest =>
+    match Json.runChunks T cfg {} rest with
+    | .error e => .error e
+    | .ok s => Json.finish T s
+  | _, _ => Json.run T cfg chunks
+
 /-- the configuration of `oj.Tokenize` / `oj.TokenizeLoad` behind `oj.Match*`: several documents
 allowed (`OnlyOne` is false in the zero `Tokenizer`), no integer fast loop that changes values -/
 def tokCfg (reader : Bool) : Cfg := { onlyOne := false, fastInt := false, reader := reader }
